@@ -414,7 +414,7 @@ class MetaModel:
             return base if base.endswith("Notification") else base + "Notification"
         if not base.endswith("Request"):
             base += "Request"
-        part = base.replace("Request", "")
+        part = base[: -len("Request")]  # the trailing word only: a method may contain "Request" itself
         return part + suffix
 
     def all_types_iter(self) -> Iterable[Tuple[str, Dict]]:
